@@ -646,7 +646,7 @@ func addTransceiverSDP(
 
 	addSenderSDP(mediaSection, isPlanB, media)
 
-	media = media.WithPropertyAttribute(transceiver.Direction().String())
+	media = media.WithPropertyAttribute(answerDirection(transceiver.Direction(), mediaSection.offered).String())
 
 	for _, fingerprint := range dtlsFingerprints {
 		media = media.WithFingerprint(fingerprint.Algorithm, strings.ToUpper(fingerprint.Value))
@@ -670,7 +670,9 @@ type simulcastRid struct {
 }
 
 type mediaSection struct {
-	id              string
+	id string
+	// offered is the direction of the remote media section when this media section answers it.
+	offered         RTPTransceiverDirection
 	transceivers    []*RTPTransceiver
 	data            bool
 	sctpInit        []byte
@@ -857,6 +859,31 @@ func getPeerDirection(media *sdp.MediaDescription) RTPTransceiverDirection {
 	}
 
 	return RTPTransceiverDirectionUnknown
+}
+
+// answerDirection restricts the direction of a transceiver to what may be answered to the offered
+// direction, RFC 3264 Section 6.1: we only send if the offerer receives and only receive if the
+// offerer sends. The direction is unchanged if offered is unknown (we are not answering).
+func answerDirection(direction, offered RTPTransceiverDirection) RTPTransceiverDirection {
+	if offered == RTPTransceiverDirectionUnknown {
+		return direction
+	}
+
+	send := (direction == RTPTransceiverDirectionSendrecv || direction == RTPTransceiverDirectionSendonly) &&
+		(offered == RTPTransceiverDirectionSendrecv || offered == RTPTransceiverDirectionRecvonly)
+	recv := (direction == RTPTransceiverDirectionSendrecv || direction == RTPTransceiverDirectionRecvonly) &&
+		(offered == RTPTransceiverDirectionSendrecv || offered == RTPTransceiverDirectionSendonly)
+
+	switch {
+	case send && recv:
+		return RTPTransceiverDirectionSendrecv
+	case send:
+		return RTPTransceiverDirectionSendonly
+	case recv:
+		return RTPTransceiverDirectionRecvonly
+	default:
+		return RTPTransceiverDirectionInactive
+	}
 }
 
 func extractBundleID(desc *sdp.SessionDescription) string {
